@@ -26,7 +26,7 @@ m = dict(
     hooks=dict(guard='cargo feature `verif` (xml-nom, xml-info, xml-xpath; off by default)',
                enable='path dependencies with features = ["verif"] from /verif/replay and /verif/kani (cargo build / cargo kani); the Verus side reads source text and needs no hook',
                baseline_off_cmd='cd /repo && cargo test --workspace --no-fail-fast --offline',
-               source_commits=['826c76f'], add_only=True),
+               source_commits=['826c76f', '42a8a68'], add_only=True),
     engines=[dict(name='contracts', path='/verif/check', serves_properties=sorted(PROPS),
                   kind_free_text='contract-based deductive verification: functions extracted mechanically from /repo on every run into single-file Verus programs with spliced requires/ensures/invariants (vf/, units/); loop-free full-domain Kani harnesses on the real crates (kani/); replay/witness search against the real code (replay/)')],
     checks=checks,
